@@ -3,6 +3,7 @@ use crate::runner::Property;
 pub mod c01;
 pub mod c02;
 pub mod c03;
+pub mod c04;
 pub mod c05;
 pub mod c08;
 pub mod c13;
@@ -13,6 +14,7 @@ pub fn property(id: &str) -> Option<Property> {
         "C01" => Some(c01::property()),
         "C02" => Some(c02::property()),
         "C03" => Some(c03::property()),
+        "C04" => Some(c04::property()),
         "C05" => Some(c05::property()),
         "C08" => Some(c08::property()),
         "C13" => Some(c13::property()),
